@@ -347,7 +347,7 @@ def freeOid (b : Store) (c : Layer) (ds : DState) (o : Oid) : Bool :=
 /-! ### the machine -/
 
 inductive Op where
-  | begin (x : Nat) (tid : Tid)
+  | begin (x : Nat) (tid : Option Tid) (now : Tid)   -- `tid = none`: the tid comes from the clock `now`
   | store (x : Nat) (o : Oid) (serial : Tid) (d : Data)
   | delete (x : Nat) (o : Oid) (serial : Tid)
   | vote (x : Nat)
@@ -367,6 +367,16 @@ inductive Out where
   | oid (o : Option Oid) (used : Nat)
 deriving Repr, DecidableEq
 
+/-- `TimeStamp(now).laterThan(old)` (idealised as in DESIGN 6.3) — what `utils.newTid(old)` returns -/
+def laterThan (now old : Tid) : Tid := if old < now then now else old + 1
+
+/-- the tid `DemoStorage.tpc_begin` hands to the changes: the caller's, else (repaired code)
+    `newTid(self.lastTransaction())`, so that tids keep increasing across the two layers -/
+def beginTid (last : Tid) (tid : Option Tid) (now : Tid) : Tid :=
+  match tid with
+  | some t => t
+  | none => laterThan now last
+
 def newDemo (b : Store) (canUndo temp : Bool) (firstDraw : Oid) : Store :=
   .demo b (Layer.empty canUndo) ⟨[], [], firstDraw, none, temp⟩
 
@@ -374,7 +384,7 @@ def newDemo (b : Store) (canUndo temp : Bool) (firstDraw : Oid) : Store :=
     (used to build base histories); a `demo` follows DemoStorage.py. -/
 def step : Store → Op → Store × Out
   -- plain storage (single client: the transaction identity is not modelled here)
-  | .leaf l, .begin _ tid => (.leaf (l.begin tid), .ok)
+  | .leaf l, .begin _ tid now => (.leaf (l.begin (beginTid l.ltid tid now)), .ok)
   | .leaf l, .store _ o ser d =>
     (match l.store o ser d with
      | .ok l' => (.leaf l', .ok)
@@ -396,10 +406,11 @@ def step : Store → Op → Store × Out
   | s, .push d => (newDemo s false true d, .ok)
   | s, .pushWith cu d => (newDemo s cu false d, .ok)
   -- DemoStorage
-  | .demo b c ds, .begin x tid =>
+  | .demo b c ds, .begin x tid now =>
     if ds.txn = some x then (.demo b c ds, .err .txnError)
     else if ds.txn.isSome then (.demo b c ds, .err .blocked)
-    else (.demo b (c.begin tid) { ds with txn := some x, stored := [] }, .ok)
+    else (.demo b (c.begin (beginTid (Store.demo b c ds).lastTransaction tid now))
+            { ds with txn := some x, stored := [] }, .ok)
   | .demo b c ds, .store x o ser d =>
     if ds.txn ≠ some x then (.demo b c ds, .err .txnError)
     else
